@@ -11,7 +11,10 @@ Streams (`kind`):
                requested parameter and enumerates all chains
   sb           simplify with the built-in criteria 4, 5, 6 on planar tracks (the module's own cost function, tolerance as
                global parameter)
-  stops        findStopsGlobal: the oracle recomputes the reward matrix from the track with exact rational geometry
+  stops        findStopsGlobal from the caller's arguments (track with altitudes, diameter, duration, downsampling, call form): the
+               oracle recomputes the DOCUMENTED reward (enclosing circle in the plane, duration) from the track — the resampled one
+               when downsampling > 1 — with exact rational geometry, demands that matrix, an optimal answer and returned stops that
+               realise the optimum; findStopsGlobalForRTK: delegation and matrix correspondence only
 """
 import sys, itertools, math, json, os
 from fractions import Fraction
@@ -19,6 +22,8 @@ from engine import Prop, fbits, bitsf, ratstr
 
 INF = float("inf")
 FINDING_MINCIRCLE = "stops-mincircle-none"
+FINDING_NANZ = "stops-nan-altitude-statistics"
+FINDING_LOOSE = "stops-mincircle-not-enclosing"
 
 
 # ------------------------------------------------------------------------------------------------
@@ -139,6 +144,60 @@ def mec_r2(pts):
     return max(mec3_r2(*t) for t in itertools.combinations(pts, 3))
 
 
+def mec3_centre(p, q, r):
+    """centre of the minimal enclosing circle of three distinct points"""
+    a2, b2, c2 = d2(q, r), d2(p, r), d2(p, q)
+    m = max(a2, b2, c2)
+    if a2 + b2 + c2 - m <= m:          # the longest side is a diameter
+        u, v = (q, r) if m == a2 else (p, r) if m == b2 else (p, q)
+        return (Fraction(u[0] + v[0]) / 2, Fraction(u[1] + v[1]) / 2)
+    (ax, ay), (bx, by), (cx, cy) = p, q, r
+    d = 2 * (ax * (by - cy) + bx * (cy - ay) + cx * (ay - by))
+    sa, sb, sc = ax * ax + ay * ay, bx * bx + by * by, cx * cx + cy * cy
+    return (Fraction(sa * (by - cy) + sb * (cy - ay) + sc * (ay - by)) / d,
+            Fraction(sa * (cx - bx) + sb * (ax - cx) + sc * (bx - ax)) / d)
+
+
+def mec_centre(pts):
+    """centre of the minimal enclosing circle: that of a triple whose circle is the largest (the model's driver CHECKS that
+    the circle encloses every point: `enclosedB`)"""
+    pts = list(dict.fromkeys(pts))
+    if len(pts) == 1:
+        return (Fraction(pts[0][0]), Fraction(pts[0][1]))
+    if len(pts) == 2:
+        return (Fraction(pts[0][0] + pts[1][0]) / 2, Fraction(pts[0][1] + pts[1][1]) / 2)
+    return mec3_centre(*max(itertools.combinations(pts, 3), key=lambda t: mec3_r2(*t)))
+
+
+def mec_tables(xy):
+    """r2[i][e], centre[i][e] of the minimal enclosing circle of xy[i..e] for all i <= e. Row i grows the segment one point at
+    a time: a point inside the current circle changes nothing; a point p outside it lies on the new circle, which is then
+    the largest of the circles of the pairs / triples that contain p (its support set contains p)."""
+    n = len(xy)
+    r2 = [[None] * n for _ in range(n)]
+    cen = [[(Fraction(0), Fraction(0))] * n for _ in range(n)]
+    for i in range(n):
+        cr, cc, seen = Fraction(0), (Fraction(xy[i][0]), Fraction(xy[i][1])), [xy[i]]
+        r2[i][i], cen[i][i] = cr, cc
+        for e in range(i + 1, n):
+            p = xy[e]
+            if (p[0] - cc[0]) ** 2 + (p[1] - cc[1]) ** 2 > cr:
+                others = [q for q in dict.fromkeys(seen) if q != p]
+                best = None
+                for q in others:
+                    v = Fraction(d2(p, q)) / 4
+                    if best is None or v > best[0]:
+                        best = (v, (Fraction(p[0] + q[0]) / 2, Fraction(p[1] + q[1]) / 2))
+                for q, r in itertools.combinations(others, 2):
+                    v = mec3_r2(p, q, r)
+                    if v > best[0]:
+                        best = (v, mec3_centre(p, q, r))
+                cr, cc = best
+            seen.append(p)
+            r2[i][e], cen[i][e] = cr, cc
+    return r2, cen
+
+
 # ------------------------------------------------------------------------------------------------
 # global parameters and cost functions of the front-end stream
 # ------------------------------------------------------------------------------------------------
@@ -206,11 +265,24 @@ class P(Prop):
         ("TracklibVerif.Props.C12", "TV.C12.stops_matrix", "the row loops of stop detection with break + C + C.T put stopsReward(a,b) at a<b: (b-a)^2 iff the break test holds for no earlier end point, the continue test does not hold and the size is computed and admitted; symmetric"),
         ("TracklibVerif.Props.C12", "TV.C12.stops_documented", "findStopsGlobal's tests (026cb79): the reward of (a,b) is (b-a)^2 exactly when every end point is within diameter of p_a, duration <= t(p_{b-1}) - t(p_a) and minCircle gives a circle with 2r <= diameter (inclusive, as documented); 0 otherwise"),
         ("TracklibVerif.Props.C12", "TV.C12.stops_optimal", "T3: the segmentation computed inside findStopsGlobal maximises the summed stopsReward (= the documented criterion, stops_documented) over all chains 0..size-2"),
+        ("TracklibVerif.Props.C12", "TV.C12.stops_planimetric", "findStopsGlobal(track, diameter, duration, downsampling) from the caller's arguments (findStopsGlobalPy: matrix, segmentation, final filter, identifiers) is the same for two tracks that agree on x, y and the times: the altitude (large variations, NaN) is never read"),
+        ("TracklibVerif.Props.C12", "TV.C12.stops_criterion", "T3: with the tests read from the track (planimetric distance2DTo) and a minCircle whose circles enclose their segment in the plane, the reward matrix IS the documented one (0 if the circle is > diameter, 0 if the duration is < duration, (b-a)^2 otherwise): the row loop's early exit removes no documented reward, because two points of a disc are at most a diameter apart in the plane"),
+        ("TracklibVerif.Props.C12", "TV.C12.stops_negative_diameter", "a negative diameter is exceeded by every distance: the reward matrix is zero"),
+        ("TracklibVerif.Props.C12", "TV.C12.stops_fit_in_circle", "T3: if minCircle's circle is moreover minimal, the reward of (a,b) is (b-a)^2 exactly when the segment lasts at least duration and its observations fit in SOME disc of diameter <= diameter (no reference to minCircle's answer), 0 otherwise"),
+        ("TracklibVerif.Props.C12", "TV.C12.stops_track_optimal", "T3: under stops_criterion's hypotheses the segmentation maximises the summed DOCUMENTED reward over all chains 0..size-2"),
+        ("TracklibVerif.Props.C12", "TV.C12.stops_final_filter", "the final filter of findStopsGlobal (None circle, radius > diameter/2, duration() < duration) is the documented test with the same inclusive boundaries"),
+        ("TracklibVerif.Props.C12", "TV.C12.find_stops_array_form", "stop detection with the dynamic programme on arrays (findStopsGlobalPyA, run by the driver) = findStopsGlobalPy: same errors, segmentation = stopsSegmentation, stops = stopsReported, same identifiers"),
+        ("TracklibVerif.Props.C12", "TV.C12.enclosedB_sound", "the certificate the driver computes on every stop-detection case (every circle handed to the model encloses the observations of its segment in the plane) is the hypothesis hc of stops_criterion / stops_track_optimal / find_stops_global"),
+        ("TracklibVerif.Props.C12", "TV.C12.find_stops_global_checked", "find_stops_global with its hypothesis on the circles replaced by that certificate (checked at run time, reply token <enc>)"),
+        ("TracklibVerif.Props.C12", "TV.C12.find_stops_global", "T3: findStopsGlobal(track, diameter, duration, downsampling) returns, as (id_ini, id_end, nb_points) = (a*downsampling, (b-1)*downsampling, b-a), exactly the segments admitted by the documented criterion of a chain that maximises the summed documented reward on the track it works on (the resampled copy when downsampling > 1)"),
     ]
     partial = []
     open_statements = [
         "IEEE doubles: optimal_bracketed / optimal_rounded are proved for an abstract rounded addition (monotone, relative error u, no associativity); that binary64 addition satisfies these hypotheses (no NaN, no overflow, u = 2^-53) is assumed, not proved in Lean (Float is opaque), and is what the transfer check on doubles samples, with the same tolerance shape and the generous constant 1e-9",
-        "findStopsGlobal: distances, durations and circle diameters are parameters of the model (it applies the three threshold tests itself, stopPredGlobal); the check computes them with exact rational geometry, except the entries where tracklib's minCircle returns None (recorded from the run) and circles through >= 3 distinct fixes whose exact diameter equals the limit (doubles decide: read off the run)",
+        "findStopsGlobal: the model (findStopsGlobalPy) reads the observations (x, y, z, t), computes the squared planimetric distances and the durations itself and applies the three tests, the final filter and the identifiers; minCircle (Welzl, randomised) and the temporal resampling `track ** (size/downsampling)` remain parameters: the check computes the circles with exact rational geometry — except the entries where tracklib's minCircle returns None (recorded from the run) and circles through >= 3 distinct fixes whose exact diameter equals the limit (doubles decide: read off the run) — and takes the resampled track from tracklib; that the circles handed to the model enclose their segments (hypothesis hc of stops_criterion / find_stops_global) is CHECKED by the driver on every case (enclosedB, theorem enclosedB_sound); that they are minimal (hmin of stops_fit_in_circle) and that tracklib's Welzl implementation returns them is not proved — the latter is what the cell-by-cell comparison of the reward matrix samples",
+        "findStopsGlobal with downsampling > 1: coordinates and times of the resampled track are interpolated doubles on which the code's own doubles (sqrt of a rounded sum, circumcentre, difference of absolute times) are not exact; a case with a value within 1e-9 of a threshold is not judged (tagged in the input histogram). Lengths are compared through their squares in the model (exact for the integer / dyadic tracks generated)",
+        "findStopsGlobal: tracklib's minCircle sometimes returns a circle that does NOT enclose the segment (its three-point case returns the smallest two-point circle containing the third point instead of the circle through the three boundary points Welzl's recursion needs; about 40 %% of the random orders on the five lattice fixes of the witness): a reward is granted where the documented criterion gives 0. The circle returned is recorded from the run and handed to the model as such (the certificate enclosedB then rightly fails); class '%s', judged once it is listed in known_findings.json (findings/C12.json)" % FINDING_LOOSE,
+        "findStopsGlobal on a track where every altitude of a reported stop is NaN raises ZeroDivisionError (the AVERAGER of no value) after the segmentation was computed: class '%s'; tracks where that can happen are generated once the class is listed in known_findings.json (findings/C12.json)" % FINDING_NANZ,
         "findStopsGlobal: when tracklib's minCircle returns None for a segment (three collinear boundary points met in some random orders of Welzl's algorithm) the code writes reward 0 where the documented criterion rewards the segment; the model has this case (`small = none`), the oracle demands the optimum of the DOCUMENTED criterion and reports the loss (class '%s')" % FINDING_MINCIRCLE,
         "findStopsGlobalForRTK (outside the property's anchors): its tests are still exclusive (`<= duration`, `< std_max`) and its source comment documents a factor 0.33 under the root that the code does not have; only the delegation and the correspondence of its matrix construction are checked",
         "simplify's built-in cost functions (modes 4-6: minimum bounding rectangle geometry) are a parameter of the model; the check evaluates the module's own functions with the requested tolerance",
@@ -220,7 +292,10 @@ class P(Prop):
                 "positional arguments, defaults, TypeError), the two loops filling the matrix, C + C.T, degenerate track sizes; "
                 "simplification.optimalSimplification (parameter and direction forwarded, b8f1113), simplify() modes 4-8; findStopsGlobal's and "
                 "findStopsGlobalForRTK's reward matrix (row loops with break/continue, thresholds as written, C + C.T), their call of "
-                "optimalPartition(MAXIMIZE) and findStopsGlobal's final filter; geometry, clock and the built-in cost functions are parameters")
+                "optimalPartition(MAXIMIZE); findStopsGlobal from the caller's arguments (findStopsGlobalPy): choice of the track "
+                "(downsampling > 1: the resampled copy), planimetric distance2DTo and elapsed time read from the observations (x, y, z, t), "
+                "the three tests, the final filter, id_ini / id_end / nb_points (multiplied by downsampling), errors on tracks of 0..2 "
+                "observations; minCircle, the temporal resampling, the RTK variant's geometry and simplify's built-in cost functions are parameters")
     rule = ("all {0,1,2}-valued symmetric matrices over N <= 4 (quick) / <= 5 (thorough) candidates and all {0,1}-valued for N = 6 (thorough), "
             "both directions; random symmetric matrices up to N = 12 over small integers / dyadic rationals (exact, model at Rat) and over doubles "
             "(model at Float, bit patterns): uniform, gaussian, one-decimal and tie-rich values, 1e300 sentinels, +inf entries, N = 2..3, junk in the "
@@ -230,10 +305,15 @@ class P(Prop):
             "*rest / callable object / not callable, four parametrised families) and global parameters None, 0, 0.0, -0.0, False, numpy zero, "
             "negative, positive, inf, tuples (empty included), positional and keyword call forms, track sizes 0..9, single calls and sequences of "
             "calls on the same track and cost function with changing parameter / direction / entry point; simplify modes 4-6 on planar tracks with "
-            "tolerances 0, 0.0, -0.0, False, numpy zero, positive, negative, inf, None; findStopsGlobal on lattice and dyadic tracks (duplicates, "
-            "collinear points, exact ties with both thresholds) and findStopsGlobalForRTK on dyadic tracks. Oracle: enumeration of all 2^(N-2) chains "
-            "in exact arithmetic on the matrix RECOMPUTED from the cost function and the requested parameter (from the track with exact rational "
-            "geometry, for findStopsGlobal), values compared (ties may pick another chain); doubles: optimum up to 1e-9 x the absolute costs summed "
+            "tolerances 0, 0.0, -0.0, False, numpy zero, positive, negative, inf, None; findStopsGlobal on lattice and dyadic tracks of 3..14 "
+            "observations (duplicates, collinear points, exact ties with both thresholds, diameter 0 or negative) WITH AN ALTITUDE CHANNEL (noise and "
+            "jumps well above the diameter, ramps, constants, NaN), downsampling omitted / 1 / 1.0 / True / 0.5 (the track itself) or 2, 3, 1.5, 1.25 "
+            "(the criterion is read on tracklib's temporal resampling of the track), positional / keyword / default-argument / verbose call forms; "
+            "findStopsGlobalForRTK on dyadic tracks with and without altitudes. Oracle: enumeration of all 2^(N-2) chains "
+            "in exact arithmetic on the matrix RECOMPUTED from the cost function and the requested parameter; for findStopsGlobal the DOCUMENTED "
+            "reward recomputed from the (resampled) track with exact rational PLANIMETRIC geometry — enclosing circle and duration only, no "
+            "distance test — must be the matrix passed down cell by cell, the answer must be optimal for it, and the stops RETURNED (id_ini, id_end) "
+            "must realise that optimum; values compared (ties may pick another chain); doubles: optimum up to 1e-9 x the absolute costs summed "
             "along the answer and along one optimal chain (the shape proved in optimal_rounded). non-trivial = at least 3 candidates, the call "
             "protocol accepted, and for stops a reward matrix that is not zero")
 
@@ -254,6 +334,14 @@ class P(Prop):
         self._geo = {}
         self._sb = {}
         self._alive = []
+        # classes of known_findings.json listed as (unrepaired) findings: a stream that can only end in a listed finding is
+        # generated once the finding is listed (never written here)
+        try:
+            with open(os.path.join(os.path.dirname(os.path.abspath(__file__)), "..", "..", "known_findings.json")) as fh:
+                self.listed = {e.get("class") for e in json.load(fh).get("entries", [])
+                               if e.get("property") == "C12" and e.get("status") == "finding"}
+        except Exception:
+            self.listed = set()
 
     # ---------------------------------------------------------------- generators
     def exhaustive_scopes(self, tier):
@@ -313,7 +401,7 @@ class P(Prop):
             out.append(self.rand_feseq(rng))
         for _ in range(120 if q else 1500):
             out.append(self.rand_sb(rng))
-        for _ in range(120 if q else 1200):
+        for _ in range(400 if q else 4000):
             out.append(self.rand_stops(rng))
         return out
 
@@ -458,7 +546,7 @@ class P(Prop):
     def rand_stops(self, rng):
         if rng.random() < 0.25:
             return self.rand_rtk(rng)
-        n = rng.randrange(4, 12)
+        n = rng.choice([rng.randrange(4, 12), rng.randrange(4, 12), rng.randrange(3, 6), rng.randrange(8, 15)])
         dyadic = rng.random() < 0.4
         pts, x, y, t = [], 0.0, 0.0, 0
         for _ in range(n):
@@ -486,7 +574,67 @@ class P(Prop):
                 if q > 0 and r * r == q and q < 900:
                     c["diameter"] = float(r) if r.denominator != 1 else int(r)
                     break
+        if rng.random() < 0.04:
+            c["diameter"] = rng.choice([0, -1, 0.0])      # no circle is admitted but a point / nothing at all
+        # the altitude channel: the documented size is that of the enclosing CIRCLE, planimetric — whatever the altitudes are
+        if rng.random() < 0.6:
+            c["z"] = self.rand_z(rng, n, c["diameter"], nan=True)
+        r = rng.random()
+        if r < 0.3 and n >= 6:
+            # `downsampling > 1`: the criterion is evaluated on the temporal resampling of the track on size/downsampling points
+            c["ds"] = rng.choice([x for x in (2, 2, 3, 1.5, 1.25) if n / x >= 4] or [1.25])
+            if any(v == "nan" for v in c.get("z", [])) and rng.random() < 0.7:
+                c["z"] = self.rand_z(rng, n, c["diameter"], nan=False)
+        elif r < 0.4:
+            c["ds"] = rng.choice([1, 1.0, 0.5, True])       # not > 1: the track itself (the identifiers are still multiplied)
+        form = rng.choice(["pos", "pos", "kw", "verbose", "nods", "defaults"])
+        if form == "nods" and "ds" in c:
+            form = "kw"
+        if form == "defaults":
+            if rng.random() < 0.5 or "ds" in c:
+                form = "pos"
+            else:
+                c["diameter"], c["duration"] = 20, 60     # the defaults of the signature
+                if rng.random() < 0.7:                      # make the default duration reachable
+                    k = rng.randrange(1, n)
+                    for p in pts[k:]:
+                        p[2] += 60
+        if form != "pos":
+            c["form"] = form
+        if rng.random() < 0.15 and len({(p[0], p[1]) for p in pts}) == n:
+            # the same track object asked twice (state left by the first call); not with coincident fixes, which minCircle
+            # moves by 1e-10 in the caller's track
+            c["twice"] = True
+        if FINDING_NANZ not in self.listed and any(v == "nan" for v in c.get("z", [])):
+            # until the finding is listed: every stop that can be reported keeps one numeric altitude (a stop lasting > 0 s has
+            # two fixes, no two consecutive altitudes are NaN, no interpolation between NaN altitudes)
+            zs = c["z"]
+            for k in range(len(zs)):
+                if zs[k] == "nan" and (k % 2 == 1 or "ds" in c and c["ds"] > 1):
+                    zs[k] = 12.5
+            if c["duration"] == 0:
+                c["duration"] = 5
         return c
+
+    def rand_z(self, rng, n, diameter, nan):
+        """altitudes: a noisy channel (jumps well above the diameter), a ramp, one jump inside the track, a constant, NaN"""
+        d = max(float(diameter), 1.0)
+        style = rng.choice(["noise", "noise", "ramp", "jump", "const"] + (["nan", "nanall"] if nan else []))
+        if style == "noise":
+            zs = [rng.randrange(-64, 65) / 8 * d for _ in range(n)]
+        elif style == "ramp":
+            s = rng.choice([0.125, 0.5, 2.0]) * d
+            zs = [100.0 + k * s for k in range(n)]
+        elif style == "jump":
+            k = rng.randrange(1, n)
+            zs = [50.0 if i < k else 50.0 + rng.choice([1.5, 3.0, -4.0]) * d for i in range(n)]
+        elif style == "const":
+            zs = [rng.choice([0.0, 250.5, -12.0])] * n
+        elif style == "nan":
+            zs = [("nan" if rng.random() < 0.4 else rng.randrange(-64, 65) / 8 * d) for _ in range(n)]
+        else:
+            zs = ["nan"] * n
+        return zs
 
     def rand_rtk(self, rng):
         n = rng.randrange(4, 12)
@@ -498,7 +646,11 @@ class P(Prop):
                 x += rng.randrange(5, 40); y += rng.randrange(-20, 20)
             t += rng.choice([1, 2, 5, 10])
             pts.append([x, y, t])
-        return {"kind": "stops", "rtk": True, "pts": pts, "std": rng.choice([0.25, 0.5, 1.0, 2.0]), "duration": rng.choice([0, 2, 5, 10])}
+        c = {"kind": "stops", "rtk": True, "pts": pts, "std": rng.choice([0.25, 0.5, 1.0, 2.0]), "duration": rng.choice([0, 2, 5, 10])}
+        if rng.random() < 0.5:
+            # this variant measures in space (distanceTo, variance of z): small dyadic altitudes, some jumps
+            c["z"] = [rng.choice([0.0, 0.125, -0.25, 0.5, 0.5, 1.0, rng.randrange(-40, 41) / 8]) for _ in range(n)]
+        return c
 
     def describe(self, case):
         k = case["kind"]
@@ -531,7 +683,14 @@ class P(Prop):
         if k == "stops":
             g = self.geometry(case)
             t["criterion"] = "rtk variant (delegation only)" if case.get("rtk") else (
+                "resampled track: a value too close to a threshold (skipped)" if g.get("unsure") else
                 "exact tie with a threshold" if any(v for r in g["tie"] for v in r) else "no tie")
+            zs = case.get("z")
+            t["altitude"] = ("none (z = 0)" if not zs else "NaN" if any(v == "nan" for v in zs) else
+                             "varies by more than the diameter" if max(zs) - min(zs) > float(case.get("diameter", 3 * case.get("std", 0))) else
+                             "varies within the diameter")
+            t["downsampling"] = str(case.get("ds", "omitted"))
+            t["form"] = case.get("form", "pos") + (", second call on the same track" if case.get("twice") else "")
         return t
 
     def nontrivial(self, case):
@@ -541,7 +700,8 @@ class P(Prop):
         if k in ("part", "partseq"):
             return len(case["C"]) - 1 >= 3 and not case.get("dom")
         if k == "stops":
-            return len(case["pts"]) >= 4 and any(v for r in self.geometry(case)["R"] for v in r)
+            g = self.geometry(case)
+            return len(g["R"]) >= 4 and not g.get("unsure") and any(v for r in g["R"] for v in r)
         if k == "fe":
             return len(case["A"]) - 1 >= 3 and self.fe_in_domain(case)
         if k == "feseq":
@@ -788,16 +948,45 @@ class P(Prop):
 
     def stops_track(self, case):
         t = self.Track([], 7)
-        for (x, y, ts) in case["pts"]:
-            t.addObs(self.Obs(self.ENU(float(x), float(y), 0.0), self.T.readUnixTime(ts)))
+        zs = case.get("z")
+        for k, (x, y, ts) in enumerate(case["pts"]):
+            t.addObs(self.Obs(self.ENU(float(x), float(y), float(zs[k]) if zs else 0.0), self.T.readUnixTime(ts)))
         return t
+
+    def resampled(self, case):
+        """`downsampling > 1`: the track the function works on, `track ** (track.size() / downsampling)` as its source says
+        (temporal resampling on that number of points: tracklib's own, not this property), else None"""
+        ds = case.get("ds", 1)
+        if case.get("rtk") or not ds > 1:
+            return None
+        t = self.stops_track(case)
+        return t ** (t.size() / ds)
+
+    def eff_points(self, case):
+        """exact (x, y, z, t) of the observations the criterion is evaluated on (z = None for NaN) and whether they are the
+        caller's own (small integers / dyadic numbers on which the doubles of the code are exact) or interpolated ones"""
+        r = self.resampled(case)
+        if r is None:
+            zs = case.get("z")
+            return [(Fraction(p[0]), Fraction(p[1]), (None if zs and zs[k] == "nan" else Fraction(zs[k]) if zs else Fraction(0)), Fraction(p[2]))
+                    for k, p in enumerate(case["pts"])], True
+        out = []
+        for o in r:
+            z = o.position.getZ()
+            out.append((Fraction(o.position.getX()), Fraction(o.position.getY()), None if z != z else Fraction(z),
+                        Fraction(o.timestamp.toAbsTime())))
+        return out, False
 
     def capture_stops(self, case):
         """run findStopsGlobal, recording the delegation (matrix, mode, result of optimalPartition), the segments for which
         tracklib's minCircle returned None (geometry is a parameter of the model) and the stops reported"""
         t = self.stops_track(case)
-        where = {id(t.getObs(i)): i for i in range(t.size())}     # extract() shares the observations
-        rec = {"none": [], "none_after": []}
+        eff = self.resampled(case)
+        eff = t if eff is None else eff
+        # extract() shares the observations of the track the function works on (its own resampled copy when downsampling > 1):
+        # a segment is recognised by the time of its first observation (strictly increasing)
+        where = {eff.getObs(i).timestamp.toAbsTime(): i for i in range(eff.size())}
+        rec = {"none": [], "none_after": [], "loose": [], "loose_after": []}
         real = self.S.optimalPartition
         real_mc = self.S.minCircle
 
@@ -811,8 +1000,15 @@ class P(Prop):
         def spy_mc(tr):
             c = real_mc(tr)
             if c is None:
-                i = where[id(tr.getObs(0))]
+                i = where[tr.getObs(0).timestamp.toAbsTime()]
                 (rec["none_after"] if "C" in rec else rec["none"]).append([i, i + tr.size() - 1])
+            elif tr.size() > 0:
+                # a circle that leaves a fix of the segment clearly outside (1e-9 relative: far above rounding and above the
+                # 1e-10 by which __circle moves coincident fixes) is not an enclosing circle
+                cx, cy, r = float(c.center.getX()), float(c.center.getY()), float(c.radius)
+                if any(math.hypot(o.position.getX() - cx, o.position.getY() - cy) > r * (1 + 1e-9) + 1e-9 for o in tr):
+                    i = where[tr.getObs(0).timestamp.toAbsTime()]
+                    (rec["loose_after"] if "C" in rec else rec["loose"]).append([i, i + tr.size() - 1, 2 * r])
             return c
         # minCircle draws from the global `random`: make the run a function of the case
         import random as _random, zlib as _zlib
@@ -821,10 +1017,34 @@ class P(Prop):
         self.S.optimalPartition = spy
         self.S.minCircle = spy_mc
         try:
+            form = case.get("form", "pos")
+            if case.get("twice") and not case.get("rtk"):
+                self.S.optimalPartition, self.S.minCircle = real, real_mc
+                try:
+                    self.S.findStopsGlobal(t, case["diameter"], case["duration"], case.get("ds", 1), False)
+                except ZeroDivisionError:
+                    pass
+                self.S.optimalPartition, self.S.minCircle = spy, spy_mc
             if case.get("rtk"):
                 stops = self.S.findStopsGlobalForRTK(t, case["std"], case["duration"], 1, False)
+            elif form == "kw":
+                stops = self.S.findStopsGlobal(verbose=False, downsampling=case.get("ds", 1), duration=case["duration"],
+                                               diameter=case["diameter"], track=t)
+            elif form == "verbose":
+                stops = self.S.findStopsGlobal(t, case["diameter"], case["duration"], case.get("ds", 1))
+            elif form == "nods" and "ds" not in case:
+                stops = self.S.findStopsGlobal(t, case["diameter"], case["duration"], verbose=False)
+            elif form == "defaults" and "ds" not in case and (case["diameter"], case["duration"]) == (20, 60):
+                stops = self.S.findStopsGlobal(t, verbose=False)
             else:
-                stops = self.S.findStopsGlobal(t, case["diameter"], case["duration"], 1, False)
+                stops = self.S.findStopsGlobal(t, case["diameter"], case["duration"], case.get("ds", 1), False)
+        except ZeroDivisionError as e:
+            # raised AFTER the delegation (statistics of a stop): what the property is about — the matrix, the answer of
+            # optimalPartition — is still judged; the exception itself is reported by the oracle
+            if "C" not in rec or case.get("rtk"):
+                raise
+            rec["raised_after"] = "err:zerodiv (%s)" % str(e)[:80]
+            stops = None
         finally:
             self.S.optimalPartition = real
             self.S.minCircle = real_mc
@@ -832,9 +1052,13 @@ class P(Prop):
         if "C" not in rec:
             raise ValueError("findStopsGlobal did not call optimalPartition")
         rec["stops"] = []
-        if stops.size() > 0:
+        if stops is not None and stops.size() > 0:
             a, b = stops.getAnalyticalFeature("id_ini"), stops.getAnalyticalFeature("id_end")
-            rec["stops"] = [[int(x), int(y)] for x, y in zip(a, b)]
+            if case.get("rtk"):
+                rec["stops"] = [[int(x), int(y)] for x, y in zip(a, b)]
+            else:
+                num = lambda v: int(v) if float(v) == int(v) else float(v)
+                rec["stops"] = [[num(x), num(y), int(m)] for x, y, m in zip(a, b, stops.getAnalyticalFeature("nb_points"))]
         return rec
 
     def cost_token(self, s, M, idx):
@@ -851,22 +1075,26 @@ class P(Prop):
         g = self._geo.get(key)
         if g is not None:
             return g
-        pts = [(Fraction(p[0]), Fraction(p[1])) for p in case["pts"]]
-        ts = [p[2] for p in case["pts"]]
+        eff, own = self.eff_points(case)
+        pts = [(p[0], p[1]) for p in eff]
+        ts = [p[3] for p in eff]
         n = len(pts)
         du = Fraction(case["duration"])
-        dur = [[Fraction(ts[e] - ts[i]) for e in range(n)] for i in range(n)]
+        dur = [[ts[e] - ts[i] for e in range(n)] for i in range(n)]
         num = None
+        unsure = False
         if case.get("rtk"):
+            # the RTK variant measures in space: 3D distance, variance over the three axes
+            pts = [(p[0], p[1], p[2]) for p in eff]
             # findStopsGlobalForRTK: same loops, `far` = distance > 3 std_max, `short` = dt <= duration,
             # `small` = sqrt(var_x + var_y + var_z) < std_max
             sd = Fraction(case["std"])
 
             def var(i, e):
                 m = e - i + 1
-                return sum(sum(p[a] * p[a] for p in pts[i:e + 1]) / m - (sum(p[a] for p in pts[i:e + 1]) / m) ** 2 for a in (0, 1))
+                return sum(sum(p[a] * p[a] for p in pts[i:e + 1]) / m - (sum(p[a] for p in pts[i:e + 1]) / m) ** 2 for a in (0, 1, 2))
             v = [[var(i, e) if e >= i else None for e in range(n)] for i in range(n)]
-            far = [[int(d2(pts[i], pts[e]) > 9 * sd * sd) for e in range(n)] for i in range(n)]
+            far = [[int(d2(pts[i], pts[e]) + (pts[i][2] - pts[e][2]) ** 2 > 9 * sd * sd) for e in range(n)] for i in range(n)]
             short = [[int(dur[i][e] <= du) for e in range(n)] for i in range(n)]
             small = [[int(e >= i and v[i][e] < sd * sd) for e in range(n)] for i in range(n)]
             fuzzy = [[int(e >= i and v[i][e] == sd * sd) for e in range(n)] for i in range(n)]   # a double sqrt decides
@@ -875,10 +1103,7 @@ class P(Prop):
             # findStopsGlobal, documented criterion (the tests of the code since 026cb79): C_ij = 0 if the enclosing circle of
             # p_i..p_{j-1} is > diameter, 0 if the duration is < duration, (j-i)^2 otherwise
             d = Fraction(case["diameter"])
-            r2 = [[None] * n for _ in range(n)]
-            for i in range(n):
-                for e in range(i, n):
-                    r2[i][e] = mec_r2(pts[i:e + 1])
+            r2, centres = mec_tables(pts)
             far = [[int(d2(pts[i], pts[e]) > d * d) for e in range(n)] for i in range(n)]
             short = [[int(dur[i][e] < du) for e in range(n)] for i in range(n)]
             small = [[int(e >= i and 4 * r2[i][e] <= d * d) for e in range(n)] for i in range(n)]
@@ -886,22 +1111,37 @@ class P(Prop):
             # circumcircle decide (two fixes exactly `diameter` apart are exact: radius = distance / 2)
             fuzzy = [[int(e >= i and 4 * r2[i][e] == d * d and len(set(pts[i:e + 1])) >= 3) for e in range(n)] for i in range(n)]
             tie = [[int(e >= i and (4 * r2[i][e] == d * d or dur[i][e] == du or d2(pts[i], pts[e]) == d * d)) for e in range(n)] for i in range(n)]
+            if d < 0:            # every distance, every circle exceeds a negative diameter
+                far = [[1] * n for _ in range(n)]
+                small = [[0] * n for _ in range(n)]
             num = {"diam2": d * d, "duration": du, "dist2": [[Fraction(d2(pts[i], pts[e])) for e in range(n)] for i in range(n)],
-                   "dur": dur, "circ2": [[4 * r2[i][e] if e >= i else Fraction(0) for e in range(n)] for i in range(n)]}
-        # the reward (model's stopsReward): the row loop stops at the first far end point
+                   "dur": dur, "circ2": [[4 * r2[i][e] if e >= i else Fraction(0) for e in range(n)] for i in range(n)],
+                   "centres": centres}
+            if not own:
+                # interpolated coordinates and times: the doubles of the code (sqrt of a rounded sum, Welzl's circumcentre, a
+                # difference of two absolute times) are not the exact values; a value within 1e-9 of its threshold is undecided
+                # and the case is left out of the judgement
+                near = lambda v, lim: abs(v - lim) <= Fraction(1, 10 ** 9) * max(abs(lim), 1)
+                unsure = any(near(num["dist2"][i][e], d * d) or near(num["circ2"][i][e], d * d) or near(dur[i][e], du)
+                             for i in range(n) for e in range(i, n))
+        # the reward. findStopsGlobal: the DOCUMENTED one — C_ij = 0 if the enclosing circle of p_i..p_{j-1} is > diameter, 0 if
+        # the duration is < duration, (j-i)^2 otherwise; no other test (the early exit of the code's row loop on a far end point
+        # is a shortcut that planimetric geometry justifies: theorem stops_criterion). RTK variant (no documented criterion
+        # checked): the row loop as written, which stops at the first far end point.
         R = [[0] * n for _ in range(n)]
         for i in range(max(n - 2, 0)):
             for j in range(i + 1, n - 1):
                 e = j - 1
-                if far[i][e]:
+                if far[i][e] and case.get("rtk"):
                     break
                 if small[i][e] and not short[i][e]:
                     R[i][j] = R[j][i] = (j - i) ** 2
         if case.get("rtk"):
             keep = [[int(e + 1 < n and R[i][e + 1] != 0) for e in range(n)] for i in range(n)]
         else:
-            keep = [[int(e >= i and 4 * r2[i][e] <= d * d and dur[i][e] >= du) for e in range(n)] for i in range(n)]
-        g = {"far": far, "short": short, "small": small, "keep": keep, "tie": tie, "fuzzy": fuzzy, "R": R, "num": num}
+            keep = [[int(e >= i and d >= 0 and 4 * r2[i][e] <= d * d and dur[i][e] >= du) for e in range(n)] for i in range(n)]
+        g = {"far": far, "short": short, "small": small, "keep": keep, "tie": tie, "fuzzy": fuzzy, "R": R, "num": num,
+             "unsure": unsure, "eff": eff, "n": n}
         if len(self._geo) > 4000:
             self._geo.clear()
         self._geo[key] = g
@@ -950,6 +1190,8 @@ class P(Prop):
                                                       self.mtok("f", W), self.mtok("f", W))]
         if k == "stops":
             g = self.geometry(case)
+            if g.get("unsure"):
+                return []
             cap = self.run_capture(case)
             small = [list(r) for r in g["small"]]
             keep = [list(r) for r in g["keep"]]
@@ -962,15 +1204,35 @@ class P(Prop):
                 small[i][e] = keep[i][e] = a
             if case.get("rtk"):
                 return ["C12.stops q %s %s %s %s" % (self.btok(g["far"]), self.btok(g["short"]), self.btok(small), self.btok(keep))]
-            # findStopsGlobal: the model applies the three tests itself to exact squared lengths and durations
+            # findStopsGlobal from the caller's arguments: the model chooses the track (downsampling), computes the squared
+            # planimetric distances and the durations from the observations and applies the three tests and the final filter
+            # itself; minCircle's circles (squared diameters, exact) and the resampled track are its parameters. A NaN altitude
+            # is sent as 0: the model never reads z (theorem stops_planimetric).
             num = g["num"]
             circ = [list(r) for r in num["circ2"]]
             for (i, e), a in adm.items():
                 circ[i][e] = num["diam2"] if a else num["diam2"] + 1
+            after = [list(r) for r in circ]
+            # where tracklib's minCircle returned a circle that does not enclose the segment, the size the code compared is
+            # that circle's (geometry is a parameter of the model): read off the run, as for None
+            for (i, e, two_r) in (cap.get("loose") or []):
+                circ[i][e] = Fraction(two_r) ** 2
+            for (i, e, two_r) in (cap.get("loose_after") or []):
+                after[i][e] = Fraction(two_r) ** 2
             for (i, e) in (cap.get("none") or []):
                 circ[i][e] = Fraction(-1)
-            return ["C12.stopsg q %s %s %s %s %s %s" % (ratstr(num["diam2"]), ratstr(num["duration"]), self.mtok("q", num["dist2"]),
-                                                        self.mtok("q", num["dur"]), self.mtok("q", circ), self.btok(keep))]
+            for (i, e) in (cap.get("none_after") or []):
+                after[i][e] = Fraction(-1)
+            row = lambda p: [p[0], p[1], Fraction(0) if p[2] is None else p[2], p[3]]
+            own, _ = self.eff_points(dict(case, ds=1))
+            ds = case.get("ds", 1)
+            # centres of the circles: the driver checks that every circle handed over encloses its segment (enclosedB), which
+            # is the hypothesis of stops_criterion / find_stops_global
+            cen = num["centres"]
+            return ["C12.stopsd q %s %s %s %s %s %s %s %s %s" % (
+                ratstr(Fraction(case["diameter"])), ratstr(num["duration"]), ratstr(Fraction(ds)), self.mtok("q", [row(p) for p in own]),
+                self.mtok("q", [row(p) for p in g["eff"]]) if ds > 1 else "_", self.mtok("q", circ), self.mtok("q", after),
+                self.mtok("q", [[c[0] for c in r] for r in cen]), self.mtok("q", [[c[1] for c in r] for r in cen]))]
 
     def run_capture(self, case):
         import engine
@@ -980,6 +1242,8 @@ class P(Prop):
         k = case["kind"]
         if k == "sb" and not replies:
             return {"err": "err:geometry"}
+        if k == "stops" and not replies:
+            return {"skipped": "a value too close to a threshold on an interpolated track"}
         r = replies[0]
         if any(x == "bad-request" for x in replies):
             raise ValueError("bad-request")
@@ -998,10 +1262,20 @@ class P(Prop):
             return {"idx": [int(x) for x in idx.split(",")], "cost": d if s == "q" else bitsf(d),
                     "again": [int(x) for x in idx.split(",")]}
         if k == "stops":
-            mat, idx, st = r.split(" ")
-            return {"C": [[Fraction(v) for v in row.split(",")] for row in mat.split(";")],
-                    "idx": [int(x) for x in idx.split(",")],
-                    "stops": [] if st == "_" else [[int(x) for x in p.split("-")] for p in st.split(",")]}
+            mat, idx, st = r.split(" ")[:3]
+            if not case.get("rtk") and r.split(" ")[3] != "1" and not self.run_capture(case).get("loose"):
+                # (with a non-enclosing circle of tracklib's minCircle handed over as such, the certificate rightly fails)
+                raise ValueError("a circle handed to the model does not enclose its segment (enclosedB = %s)" % r.split(" ")[3])
+            out = {"C": [[Fraction(v) for v in row.split(",")] for row in mat.split(";")],
+                   "idx": [int(x) for x in idx.split(",")]}
+            if case.get("rtk"):
+                out["stops"] = [] if st == "_" else [[int(x) for x in p.split("-")] for p in st.split(",")]
+            else:
+                # a-e:id_ini:id_end:nb_points
+                items = [] if st == "_" else [p.split(":") for p in st.split(",")]
+                out["segments"] = [[int(x) for x in it[0].split("-")] for it in items]
+                out["stops"] = [[Fraction(it[1]), Fraction(it[2]), int(it[3])] for it in items]
+            return out
         out = {"idx": [] if r == "_" else [int(x) for x in r.split(",")]}
         if k == "fe" and len(replies) > 1:
             out["matrix"] = replies[1]
@@ -1056,19 +1330,31 @@ class P(Prop):
             return None
         if k == "stops":
             g = self.geometry(case)
+            if g.get("unsure"):
+                return None
             if [[Fraction(v) for v in r] for r in impl_out["C"]] != model_out["C"]:
                 return "reward matrix: impl=%s model=%s" % (impl_out["C"], [[float(v) for v in r] for r in model_out["C"]])
             if impl_out["idx"] != model_out["idx"] and not self.same_value(case, model_out["C"], impl_out["idx"], model_out["idx"], 0):
                 return "segmentation: impl=%s model=%s" % (impl_out["idx"], model_out["idx"])
-            if impl_out["idx"] == model_out["idx"]:
+            if impl_out["idx"] == model_out["idx"] and not impl_out.get("raised_after"):
                 # the stops reported, except segments on the boundary of the final filter (float radius against diameter/2)
                 # and segments whose circle tracklib could not compute
                 skip = {(a, e) for a in range(len(g["fuzzy"])) for e in range(len(g["fuzzy"])) if g["fuzzy"][a][e]}
-                skip |= {tuple(x) for x in impl_out.get("none_after", [])}
-                a = [x for x in impl_out["stops"] if tuple(x) not in skip]
-                b = [x for x in model_out["stops"] if tuple(x) not in skip]
+                if case.get("rtk"):
+                    skip |= {tuple(x) for x in impl_out.get("none_after", [])}
+                    a = [x for x in impl_out["stops"] if tuple(x) not in skip]
+                    b = [x for x in model_out["stops"] if tuple(x) not in skip]
+                else:
+                    # (id_ini, id_end, nb_points) of every stop; a segment on the boundary of the final filter is identified by
+                    # the identifiers the model gives it
+                    ds = Fraction(case.get("ds", 1))
+                    ids = {(i * ds, e * ds) for (i, e) in skip}
+                    a = [[Fraction(x[0]), Fraction(x[1]), x[2]] for x in impl_out["stops"]]
+                    a = [x for x in a if (x[0], x[1]) not in ids]
+                    b = [x for x in model_out["stops"] if (x[0], x[1]) not in ids]
                 if a != b:
-                    return "stops reported: impl=%s model=%s" % (impl_out["stops"], model_out["stops"])
+                    return "stops reported (id_ini, id_end, nb_points): impl=%s model=%s" % (
+                        impl_out["stops"], [[float(v) for v in x] for x in model_out["stops"]])
             return None
         if k == "fe" and "matrix" in model_out and model_out["matrix"] != impl_out.get("matrix"):
             return "matrix construction: impl=%s model=%s" % (impl_out.get("matrix"), model_out["matrix"])
@@ -1124,6 +1410,8 @@ class P(Prop):
                 return "raised %s (%s) for a call the cost function accepts" % (out["err"], out.get("detail"))
             return oracle(Cx, len(Cx) - 1, case.get("mode", "min") == "max", out["idx"], rel,
                           "summed cost for the requested parameter %s" % (case.get("glob") or case.get("tol"))[1:])
+        if k == "stops" and self.geometry(case)["n"] < 3:
+            return None       # fewer than two candidates on the (resampled) track: outside the property's domain
         if "err" in out:
             return "raised %s (%s)" % (out["err"], out.get("detail"))
         if k in ("sym", "part"):
@@ -1144,7 +1432,9 @@ class P(Prop):
             return None
         if k == "stops":
             g = self.geometry(case)
-            n = len(case["pts"])
+            n = g["n"]
+            if g.get("unsure"):
+                return None       # interpolated track with a value within 1e-9 of a threshold: doubles decide, not judged
             if out["mode"] != int(self.S.MODE_SEGMENTATION_MAXIMIZE):
                 return "findStopsGlobal delegates with mode %s instead of MAXIMIZE" % out["mode"]
             if case.get("rtk"):
@@ -1159,6 +1449,9 @@ class P(Prop):
             # tracklib's minCircle returned None (the code then writes 0).
             R = g["R"]
             none = {(i, e + 1) for (i, e) in out.get("none", [])}
+            loose = {(i, e + 1) for (i, e, _) in out.get("loose", [])}
+            strict = FINDING_LOOSE in self.listed      # until the finding is listed such a cell is not judged
+            bad_loose = []
             if len(out["C"]) != n or any(len(r) != n for r in out["C"]):
                 return "findStopsGlobal's reward matrix is not %d x %d" % (n, n)
             Mx = [[Fraction(0)] * n for _ in range(n)]     # what the code was asked to maximise
@@ -1176,8 +1469,17 @@ class P(Prop):
                         Dx[a][b] = v
                     elif v == 0 and (lo, hi) in none:
                         pass
+                    elif v != R[a][b] and (lo, hi) in loose and v in (0, (hi - lo) ** 2):
+                        if strict:
+                            bad_loose.append((a, b, float(v), R[a][b]))
+                        else:
+                            Dx[a][b] = v
                     elif v != R[a][b]:
                         bad.append((a, b, float(v), R[a][b]))
+            if bad_loose and not bad:
+                return ("findStopsGlobal's reward matrix differs from the documented criterion recomputed from the track: (row, column, "
+                        "passed, criterion) = %s — minCircle returned a circle that does not enclose the segment(s) %s" % (
+                            bad_loose[:4], sorted({(min(a, b), max(a, b) - 1) for a, b, _, _ in bad_loose})[:4]))
             if bad:
                 return "findStopsGlobal's reward matrix differs from the documented criterion recomputed from the track: (row, column, passed, criterion) = %s" % (bad[:4],)
             r = oracle(Mx, n - 1, True, out["idx"], 0, "summed reward")
@@ -1187,12 +1489,61 @@ class P(Prop):
             if r:
                 lost = sorted((a, b - 1) for (a, b) in none if Dx[a][b] != 0)
                 return "%s — minCircle returned None for the segment(s) %s, which the documented criterion rewards" % (r, lost)
+            if out.get("raised_after"):
+                eff = g["eff"]
+                idx = out["idx"]
+                allnan = [(a, b - 1) for a, b in zip(idx, idx[1:]) if Dx[a][b] != 0 and all(eff[k][2] is None for k in range(a, b))]
+                return "findStopsGlobal raised %s after the segmentation %s was computed%s" % (
+                    out["raised_after"], idx,
+                    ": every altitude of the stop(s) %s is NaN and the mean of no value divides by zero" % allnan if allnan else "")
+            return self.spec_reported(case, g, out, Dx)
+        return None
+
+    def spec_reported(self, case, g, out, Dx):
+        """The stops RETURNED realise the optimum of the documented criterion: they are disjoint segments in increasing order
+        (id_ini, id_end = first and last observation of the stop, times `downsampling` as the function writes them) whose
+        summed documented reward is the maximum over all partitions. Not judged where the function leaves it open or doubles
+        decide: downsampling <= 0 (the identifiers are all 0), a circle whose exact diameter is the limit on the selected
+        segments; a stop lost because minCircle returned None in the final filter is the known finding."""
+        n = g["n"]
+        ds = Fraction(case.get("ds", 1))
+        if not ds > 0:
             return None
+        idx = out["idx"]
+        if any(g["fuzzy"][a][b - 1] for a, b in zip(idx, idx[1:])):
+            return None
+        segs, last = [], -1
+        for st in out["stops"]:
+            a, e = Fraction(st[0]) / ds, Fraction(st[1]) / ds
+            if a.denominator != 1 or e.denominator != 1 or not (last < a <= e <= n - 3):
+                return "stops reported %s: (id_ini, id_end) / downsampling are not disjoint segments of the candidates 0..%d in increasing order" % (
+                    out["stops"], n - 2)
+            segs.append((int(a), int(e)))
+            last = e
+        got = sum((Dx[a][e + 1] for a, e in segs), Fraction(0))
+        best, arg = brute(Dx, n - 1, True)
+        if got < best:
+            lost = sorted(tuple(x) for x in out.get("none_after", []) if Dx[x[0]][x[1] + 1] != 0 and tuple(x) not in segs)
+            msg = "the stops reported %s realise a summed documented reward %s but the partition %s has %s" % (
+                [list(x) for x in segs], float(got), arg, float(best))
+            if lost:
+                msg += " — minCircle returned None for the segment(s) %s, which the documented criterion rewards" % (lost,)
+            elif out.get("loose_after") or out.get("loose"):
+                if FINDING_LOOSE not in self.listed:
+                    return None
+                msg += " — minCircle returned a circle that does not enclose the segment(s) %s (row loops) / %s (final filter)" % (
+                    [x[:2] for x in out.get("loose", [])], [x[:2] for x in out.get("loose_after", [])])
+            return msg
         return None
 
     def classify(self, case, impl_out, msg):
         if case["kind"] == "stops" and not case.get("rtk") and msg and "minCircle returned None" in str(msg):
             return FINDING_MINCIRCLE
+        if case["kind"] == "stops" and not case.get("rtk") and msg and "minCircle returned a circle that does not enclose" in str(msg):
+            return FINDING_LOOSE
+        if (case["kind"] == "stops" and not case.get("rtk") and msg and "every altitude of the stop(s)" in str(msg)
+                and any(v == "nan" for v in case.get("z", []))):
+            return FINDING_NANZ
         return None
 
     # ---------------------------------------------------------------- shrinking / search
@@ -1258,9 +1609,20 @@ class P(Prop):
         if k == "sb" and len(case["pts"]) > 4:
             for d in range(len(case["pts"])):
                 yield dict(case, pts=case["pts"][:d] + case["pts"][d + 1:])
-        if k == "stops" and len(case["pts"]) > 4:
-            for d in range(len(case["pts"])):
-                yield dict(case, pts=case["pts"][:d] + case["pts"][d + 1:])
+        if k == "stops":
+            for x in ("form", "ds", "twice"):
+                if x in case:
+                    yield {y: case[y] for y in case if y != x}
+            if "z" in case:
+                yield {y: case[y] for y in case if y != "z"}
+                if any(v == "nan" for v in case["z"]):
+                    yield dict(case, z=[0.0 if v == "nan" else v for v in case["z"]])
+            if len(case["pts"]) > (6 if case.get("ds", 1) > 1 else 3):
+                for d in range(len(case["pts"])):
+                    c = dict(case, pts=case["pts"][:d] + case["pts"][d + 1:])
+                    if "z" in case:
+                        c["z"] = case["z"][:d] + case["z"][d + 1:]
+                    yield c
 
     def search_cases(self, rng):
         out = [c for c in self.cases(rng, "quick")]
